@@ -340,6 +340,34 @@ CLAIMED["C04"] = {
     "design_ref": "DESIGN.md section 8, C04",
 }
 
+CLAIMED["C17"] = {
+    "text": "PARTIAL (the protocol, not the runtime): theorems about a labelled transition system of the threads and channels of a run "
+            "(Model/Protocol.v: main, reader, analysis + validators or writer, controller; bounded data and validator channels, unbounded "
+            "statistics channels; the stop flag may be raised and stdout may go away at ANY step), instantiated with the structural facts "
+            "re-read from the sources on every run (which loops poll the stop flag, that `process` drops its receiver clone on every non-writer "
+            "arm, that the dispatcher clears its senders before joining, which write errors are handled rather than unwrapped, the channel "
+            "capacities). For EVERY mode, input, interleaving, queue occupancy, number of validators and instant of the stop condition: "
+            "C17_no_deadlock (some thread can move in every reachable non-final state, whichever validator the next CDP is routed to), "
+            "C17_variant / C17_terminates (every step decreases an explicit variant: no livelock, executions are finite), "
+            "C17_bounded_after_stop (once the flag is up the number of remaining steps is bounded by a quantity independent of the unread "
+            "input: at most the batch being filled is still read), C17_fatal_raises_stop / C17_cap_raises_stop (a fatal message or cap-reaching "
+            "errors in flight raise the flag by the time the controller has consumed them, for every interleaving), C17_stop_monotone, "
+            "C17_all_joined (when main exits every worker has finished and every channel is empty and closed), C17_no_panic (a failing write to "
+            "stdout is never unwrapped -- holds since the fix: commits d5169ec and 3c83aed, the defects F14a/F14b found by this check), "
+            "C17_whole_packets_at_exit / C17_whole_packets_always (whatever number of batches the writer took before stopping and whatever the "
+            "flush threshold, what reached the destination is the serialisation of a prefix of the packet sequence). The tie to the code: the "
+            "regenerated facts; event traces of real runs (hook H2) replayed thread by thread through the extracted step function; scenario "
+            "runs of the rebuilt binary (signal at a random instant, stdout closed after k bytes, error cap, fatal error, with schedule "
+            "perturbation filling the queues, file and ENDLESS piped input) that must end within the limit, without panic/abort, all "
+            "threads finished, the -o file made of whole packets, and no loop reading on after the stop.",
+    "note": "Partial, stated as such: signal delivery, EPIPE, panics inside library code and wall-clock time are outside an executable Gallina "
+            "model; they are observed by the scenario runs only (not proofs). The channel libraries (crossbeam, flume) are assumed FIFO with the "
+            "documented disconnect semantics. A second stop signal (documented as ungraceful: std::process::exit) is out of scope. Trusted: Coq "
+            "kernel; gen/facts_proto.py; extraction + driver; hook H2; the binary; OS timing of the scenario runs.",
+    "technique": "Coq proof (invariant + variant over a protocol LTS parameterised by regenerated source facts) + thread-local trace replay through the extracted LTS + scenario runs of the rebuilt binary",
+    "design_ref": "DESIGN.md section 8, C17",
+}
+
 ALL = ["C%02d" % i for i in range(1, 21)]
 PENDING_REASON = "not claimed yet: the model/proof for this property is still under construction in this development (see DESIGN.md section 12 build order); no check is registered until its theorem file compiles without admits and its correspondence stream runs"
 
@@ -386,8 +414,8 @@ def main():
     print("MANIFEST.json: %d checks, %d not claimed" % (len(checks), len(man["not_applicable"])))
 
 
-HOOK_COMMITS = ["f32fed4"]
-FIX_COMMITS = ["2eb10e8", "024b878", "afd2aa3", "f731241", "add603d", "adf846c", "02e4e23", "df2db44", "fe06634", "1cace01"]
+HOOK_COMMITS = ["f32fed4", "00af9e0", "ea3c868"]
+FIX_COMMITS = ["2eb10e8", "024b878", "afd2aa3", "f731241", "add603d", "adf846c", "02e4e23", "df2db44", "fe06634", "1cace01", "d5169ec", "3c83aed"]
 NOT_APPLICABLE = {}
 
 if __name__ == "__main__":
